@@ -155,7 +155,8 @@ class CallMixin:
             self.effect("recursion-cut", site, st, fr, func=fi.qualname)
             return self.generic_call(self.func_node(fi), pos, kw, st, fr, site, "recursion")
         fnode = fi.node
-        if not isinstance(fnode, ast.Lambda) and has_yield(fnode):
+        if not isinstance(fnode, ast.Lambda) and has_yield(fnode) and not (
+                fi.qualname in self.analyse_generators and not any(f is fi for (_s, f) in fr.chain)):
             n = self.generic_call(self.func_node(fi), pos, kw, st, fr, site, "generator")
             n.extra["generator"] = fi
             return n
